@@ -7,6 +7,7 @@ Adv == l' = l + 1 /\ h' = h
 More == l <= Len(Events(h))
 TSent == More /\ Ev.e = "Sent" /\ Sent(Ev.keys) /\ Adv
 TResp == More /\ Ev.e = "Resp" /\ Resp(Ev.tag, Ev.bodyOk) /\ Adv
-TNext == TSent \/ TResp
+TEnd == More /\ Ev.e = "End" /\ End(Ev.openIdle) /\ Adv
+TNext == TSent \/ TResp \/ TEnd
 Mark == MarkAccepted(h, l)
 ====
